@@ -107,9 +107,13 @@ Verdict judge(const Case &c, int step, const json &stepj, const json &obs, const
   g_shm->checks++;
   const json &exp = stepj["exp"];
   std::string d   = diff(exp, obs, wild);
-  if (d.empty())
-    return Verdict::Ok;
   bool is_std = std::strcmp(world, "std") == 0;
+  if (d.empty())
+  {
+    if (!is_std && stepj.contains("alts") && !stepj["alts"].empty())
+      g_shm->alt_counts[exp.contains("died") && !exp["died"].empty() ? 1 : 0]++;
+    return Verdict::Ok;
+  }
   if (stepj.contains("alts"))
   {
     int k = 0;
@@ -119,13 +123,10 @@ Verdict judge(const Case &c, int step, const json &stepj, const json &obs, const
       {
         if (!is_std)
         {
+          // which alternative of a don't-care band the real code takes is counted (evidence), never judged
           g_shm->truncated_alt++;
-          // which alternative the real code takes is recorded (evidence), never judged
-          std::string key = stepj.value("op", "") + (a.contains("died") && !a["died"].empty() ? ":released" : ":kept");
-          json j          = {{"r", "alt"}, {"m", c.m}, {"id", c.id}, {"step", step}, {"op", stepj.value("op", "")},
-                             {"took", key}};
-          if (g_shm->alt_counts[k < 8 ? k : 7]++ < 3)
-            emit(j);
+          bool released = a.contains("died") && !a["died"].empty();
+          g_shm->alt_counts[released ? 1 : 0]++;
         }
         return Verdict::Alt;
       }
@@ -149,6 +150,7 @@ Verdict judge(const Case &c, int step, const json &stepj, const json &obs, const
     }
   }
   g_shm->findings++;
+  g_shm->bad++;
   emit({{"r", is_std ? "stdspec" : "mismatch"}, {"m", c.m}, {"id", c.id}, {"inst", c.inst}, {"step", step},
         {"op", stepj.value("op", "")}, {"path", d}, {"exp", locate(exp, d)}, {"obs", locate(obs, d)},
         {"what", std::string(world) + " result differs from the specification at " + d}});
@@ -158,6 +160,7 @@ Verdict judge(const Case &c, int step, const json &stepj, const json &obs, const
 void harness_error(const Case &c, int step, const std::string &what)
 {
   g_shm->findings++;
+  g_shm->bad++;
   emit({{"r", "harness"}, {"m", c.m}, {"id", c.id}, {"inst", c.inst}, {"step", step}, {"what", what}});
 }
 }  // namespace c20
@@ -219,8 +222,14 @@ int main(int argc, char **argv)
   long n     = static_cast<long>(lines.size());
   long start = 0;
   long forks = 0, crashes = 0;
+  bool aborted = false;
   while (start < n)
   {
+    if (g_shm->bad >= kMaxBad)
+    {
+      aborted = true;
+      break;
+    }
     int ep[2];
     if (pipe(ep) != 0)
     {
@@ -264,7 +273,8 @@ int main(int argc, char **argv)
           continue;
         }
         long before = g_shm->findings;
-        for (int k = 0; k < ninst; ++k)
+        int ni = b.value("ninst", ninst);   // a behaviour may ask for its own number of concretisations
+        for (int k = 0; k < ni; ++k)
         {
           g_shm->cur   = j;
           g_shm->step  = -1;
@@ -282,6 +292,8 @@ int main(int argc, char **argv)
         // a non-ideal outcome of the code under test may have corrupted this process (a dangling
         // owner was exercised): continue in a fresh child
         if (g_shm->findings != before && j + 1 < n)
+          _exit(42);
+        if (g_shm->bad >= kMaxBad)
           _exit(42);
       }
       _exit(0);
@@ -405,9 +417,13 @@ int main(int argc, char **argv)
     emit(j);
     g_shm->findings++;
     g_shm->behaviours++;
+    if (j["r"] != "dev")
+      g_shm->bad++;
     start = cur + 1;
   }
   emit({{"r", "summary"},
+        {"aborted", aborted ? 1 : 0},
+        {"bad", static_cast<long>(g_shm->bad)},
         {"behaviours", static_cast<long>(g_shm->behaviours)},
         {"loaded", n},
         {"steps", static_cast<long>(g_shm->steps)},
@@ -416,6 +432,8 @@ int main(int argc, char **argv)
         {"truncated_alt", static_cast<long>(g_shm->truncated_alt)},
         {"truncated_dev", static_cast<long>(g_shm->truncated_dev)},
         {"skipped_known_crash", static_cast<long>(g_shm->skipped_known_crash)},
+        {"alt_took_unchanged", static_cast<long>(g_shm->alt_counts[0])},
+        {"alt_took_released", static_cast<long>(g_shm->alt_counts[1])},
         {"forks", forks},
         {"crashes", crashes}});
   return 0;
